@@ -5,6 +5,9 @@ never panic.
 -/
 namespace Grol.E
 
+theorem runM_rootBindsFunc (name : String) (st : St) :
+    runM (rootBindsFunc name) st = (.ok (rootFnOf st name), st) := rfl
+
 /-! ### stores -/
 
 theorem lookupStore_mem {store : List (String × Obj)} {name : String} {v : Obj}
@@ -565,6 +568,7 @@ theorem post_envCreate {st : St} (hI : Inv st) {e : Nat} (he : e < st.frames.siz
   unfold envCreate
   refine Post.bind (post_valueOf hI hval) ?_
   rintro v s hIs _ ⟨rfl, hv, hnr⟩
+  refine Post.bind_read (runM_rootBindsFunc _ _) ?_
   refine Post.bind (Q := fun _ _ => True) ?_ ?_
   · refine post_store (name := name) hI he hv hnr ?_
     intro f; exact ⟨rfl, rfl, rfl, rfl⟩
@@ -580,6 +584,7 @@ theorem post_envStoreAt {st : St} (hI : Inv st) {w e : Nat} (hw : w < st.frames.
   refine Post.bind (post_functionChanged hI hw _) ?_
   rintro _ s hIs hle ⟨hsz, _⟩
   have hv' : okObj s.frames.size v = true := okObj_mono hle _ hv
+  refine Post.bind_read (runM_rootBindsFunc _ _) ?_
   refine Post.bind (Q := fun _ _ => True) ?_ ?_
   · refine post_store (name := name) hIs (by omega) hv' hnr ?_
     intro f; exact ⟨rfl, rfl, rfl, rfl⟩
@@ -631,6 +636,7 @@ theorem post_setNoChecks {st : St} (hI : Inv st) {e : Nat} (he : e < st.frames.s
       refine Post.bind_read (runM_getFrame hfre) ?_
       refine Post.bind (post_functionChanged hIs (by omega) _) ?_
       rintro _ s1 hIs1 hle1 ⟨hsz1, _⟩
+      refine Post.bind_read (runM_rootBindsFunc _ _) ?_
       refine Post.bind (Q := fun _ _ => True) ?_ ?_
       · refine post_store (name := rn) hIs1 (by omega) (okObj_mono hle1 _ hv) hnr ?_
         intro f; exact ⟨rfl, rfl, rfl, rfl⟩
